@@ -501,19 +501,22 @@ def cfdp_eof():
     from spacepackets.util import ByteFieldU8
     conf = PduConfig(ByteFieldU8(1), ByteFieldU8(2), ByteFieldU8(3), TransmissionMode.ACKNOWLEDGED, LargeFileFlag.NORMAL, CrcFlag.WITH_CRC)
     return EofPdu, EofPdu(conf, bytes([1, 2, 3, 4]), 5)
-if op == "tc.pack": out = bytes(tc().pack()).hex()
-elif op == "tc.calc_crc+pack_without_recalc":
-    o = tc(); o.calc_crc(); out = bytes(o.pack(recalc_crc=False)).hex()
-elif op == "tc.space_packet_view": out = bytes(tc().to_space_packet().pack()).hex()
-elif op == "tm.pack": out = bytes(tm().pack()).hex()
-elif op == "tm.calc_crc+pack_without_recalc":
-    o = tm(); o.calc_crc(); out = bytes(o.pack(recalc_crc=False)).hex()
-elif op == "tm.space_packet_view": out = bytes(tm().to_space_packet().pack()).hex()
-elif op == "check_pus_crc": out = [bool(check_pus_crc(ref_tc)), bool(check_pus_crc(ref_tm))]
-elif op == "tc.unpack": out = bytes(PusTc.unpack(ref_tc).pack()).hex()
-elif op == "tm.unpack": out = bytes(PusTm.unpack(ref_tm, 3).pack()).hex()
-elif op == "cfdp.pack": out = bytes(cfdp_eof()[1].pack()).hex()
-elif op == "cfdp.unpack": out = bytes(cfdp_eof()[0].unpack(ref_eof).pack()).hex()
+try:
+  if op == "tc.pack": out = bytes(tc().pack()).hex()
+  elif op == "tc.calc_crc+pack_without_recalc":
+      o = tc(); o.calc_crc(); out = bytes(o.pack(recalc_crc=False)).hex()
+  elif op == "tc.space_packet_view": out = bytes(tc().to_space_packet().pack()).hex()
+  elif op == "tm.pack": out = bytes(tm().pack()).hex()
+  elif op == "tm.calc_crc+pack_without_recalc":
+      o = tm(); o.calc_crc(); out = bytes(o.pack(recalc_crc=False)).hex()
+  elif op == "tm.space_packet_view": out = bytes(tm().to_space_packet().pack()).hex()
+  elif op == "check_pus_crc": out = [bool(check_pus_crc(ref_tc)), bool(check_pus_crc(ref_tm))]
+  elif op == "tc.unpack": out = bytes(PusTc.unpack(ref_tc).pack()).hex()
+  elif op == "tm.unpack": out = bytes(PusTm.unpack(ref_tm, 3).pack()).hex()
+  elif op == "cfdp.pack": out = bytes(cfdp_eof()[1].pack()).hex()
+  elif op == "cfdp.unpack": out = bytes(cfdp_eof()[0].unpack(ref_eof).pack()).hex()
+except Exception as e:
+  out = 'EXC:' + type(e).__name__
 sys.stdout.write(json.dumps(out))
 """
 
